@@ -1,5 +1,6 @@
 from inspect import Traceback
-from signal import getsignal, SIG_IGN, SIGINT, signal as signal_, Signals
+import os
+from signal import getsignal, SIG_DFL, SIG_IGN, SIGINT, signal as signal_, Signals
 from threading import current_thread, main_thread
 from types import FrameType
 from typing import Type
@@ -23,7 +24,12 @@ class DelayedKeyboardInterrupt:
         if current_thread() == main_thread():
             signal_(SIGINT, self.old_handler)
             if self.signal_received:
-                self.old_handler(*self.signal_received)
+                # The handler we found can be a function, but also SIG_IGN (nothing to do) or SIG_DFL (in which case we
+                # send the signal again, now that the default action is back in place). Those two can't be called
+                if callable(self.old_handler):
+                    self.old_handler(*self.signal_received)
+                elif self.old_handler == SIG_DFL:
+                    os.kill(os.getpid(), SIGINT)
 
 
 class DisableKeyboardInterruptSignal:
